@@ -9,7 +9,7 @@ from mirsym.values import *
 from mirsym.summaries.core import some, none, ok, err, deref_all
 from mirsym.summaries.env import io_error
 from mirsym.summaries.sysenv import errno
-from specs.dbmodel import DBWorld, BASE, S1, S2, S3, S_MISSING, S_DIR
+from specs.dbmodel import DBWorld, BASE, S1, S2, S3, S_MISSING, S_DIR, S_LINK, S_LINK_TARGET
 
 S_NEW = b'9.000000-77-900-33188-0-0'        # stamp of a file created by this job (fresh inode, fresh mtime)
 S_NEW2 = b'9.500000-78-901-33188-0-0'
@@ -88,6 +88,12 @@ class BuildWorld(DBWorld):
         self.ev('stat', name=bytes(name).decode('latin-1'), follow=follow, result=None if st is None else bytes(st).decode())
         if st is None:
             return err(io_error('NotFound'))
+        if tuple(st) == tuple(S_LINK):
+            if follow:
+                return ok(self.metadata(name, S_LINK_TARGET))
+            md = self.metadata(name, st)
+            md.data['is_symlink'] = True
+            return ok(md)
         return ok(self.metadata(name, st))
 
     def metadata(self, name, st, size=None):
@@ -157,6 +163,11 @@ class BuildWorld(DBWorld):
         st = self.fs_stamp(na)
         if st is None:
             return err(io_error('NotFound'))
+        dst = self.fs_stamp(nb)
+        if dst is not None and tuple(dst) == tuple(S_DIR) and tuple(st) != tuple(S_DIR):
+            # rename(2) of a file onto an existing directory fails (EISDIR)
+            self.ev('rename-eisdir', dst=bytes(nb).decode('latin-1'))
+            return err(io_error('Other'))
         self.effect('rename', src=bytes(na).decode('latin-1'), dst=bytes(nb).decode('latin-1'))
         self.fs[nb] = st
         self.content[nb] = self.content.get(na, '?')
